@@ -360,8 +360,9 @@ impl<'a, R: Rng> Gen<'a, R> {
         match k {
             KeyTy::Str => self.key_string(),
             KeyTy::U8 => {
-                let v = self.below(256);
-                if self.cfg.alt_key_spellings && self.chance(0.15) {
+                // with alternative spellings, a small range makes two spellings of one key meet in one map
+                let v = if self.cfg.alt_key_spellings && self.chance(0.5) { self.below(4) } else { self.below(256) };
+                if self.cfg.alt_key_spellings && self.chance(0.3) {
                     if self.chance(0.5) {
                         format!("+{v}")
                     } else {
@@ -591,9 +592,28 @@ impl<'a, R: Rng> Gen<'a, R> {
                 if self.fault_here() {
                     return self.other_kind(&[crate::pv::Kind::Map]);
                 }
-                let n = if depth >= self.cfg.max_depth { 0 } else { let l = self.len(); if l > 6 { l.min(20) } else { l.min(4) } };
+                // mostly small maps; now and then a long one (up to 20), rarely a very long one (size thresholds)
+                let n = if depth >= self.cfg.max_depth { 0 } else { let l = self.len(); if l > 48 { l } else if l > 6 { l.min(20) } else { l.min(4) } };
                 let mut m: Vec<(String, PV)> = vec![];
-                for _ in 0..n {
+                for i in 0..n {
+                    if n > 48 {
+                        // very long map: distinct keys by construction, cheap values, one fault now and then
+                        let k = match key {
+                            KeyTy::Str => format!("k{i}"),
+                            KeyTy::U8 => (i % 256).to_string(),
+                            KeyTy::I16 | KeyTy::I32 => (i as i64 - 20).to_string(),
+                            KeyTy::Bool => (i % 2 == 0).to_string(),
+                        };
+                        if !self.cfg.dup_keys && m.iter().any(|(kk, _)| *kk == k) {
+                            continue;
+                        }
+                        let saved = self.cfg.max_depth;
+                        self.cfg.max_depth = depth + 1;
+                        let v = self.typed(val, depth + 1);
+                        self.cfg.max_depth = saved;
+                        m.push((k, v));
+                        continue;
+                    }
                     let k = if self.fault_here() {
                         match self.bad_key_for(*key) {
                             Some(k) => k,
@@ -681,6 +701,11 @@ impl<'a, R: Rng> Gen<'a, R> {
                     }
                 } else {
                     m.push((en.tag.clone(), PV::Str(var.key.clone())));
+                }
+                if self.cfg.dup_keys && self.chance(0.06) {
+                    // the tag key a second time (a value source that keeps duplicate keys)
+                    let v = if self.chance(0.5) { PV::Str(self.pick(&en.variants).key.clone()) } else { self.blind(depth + 1) };
+                    m.push((en.tag.clone(), v));
                 }
                 self.shuffle(&mut m);
                 PV::Map(m)
